@@ -68,7 +68,10 @@ let run o =
     state := Some (m', s');
     show_model r ^ " ## " ^ show_spec q
 
-let fref t = match t with "none" -> FNone | "foreign" -> FForeign | _ -> FOrd (nat_of_int (oint_of_string t))
+let fref t =
+  if t = "none" then FNone
+  else if OStr.length t > 8 && OStr.sub t 0 8 = "foreign:" then FForeign (nat_of_int (oint_of_string (OStr.sub t 8 (OStr.length t - 8))))
+  else FOrd (nat_of_int (oint_of_string t))
 let dbls l = OLst.map dec_dbl l
 let rec take n l = if n = 0 then [] else match l with x :: r -> x :: take (n - 1) r | [] -> failwith "short line"
 let counted l = match l with n :: r -> OLst.map str (take (oint_of_string n) r) | [] -> failwith "count expected"
@@ -77,7 +80,7 @@ let z = z_of_string
 let handle toks = match toks with
   | "new" :: dt :: rank :: len :: nfr :: rest ->
     let t = parse_dtype dt in
-    let rec frames k rest = if k = 0 then [] else
+    let rec frames k rest = if k = 0 then ([], rest) else
         match rest with
         | name :: rows :: nc :: r ->
           let nc = oint_of_string nc in
@@ -86,14 +89,18 @@ let handle toks = match toks with
               | cn :: cu :: ct :: r' -> let (cs, r'') = cols (j - 1) r' in (((str cn, str cu), parse_dtype ct) :: cs, r'')
               | _ -> failwith "bad column" in
           let (cs, r') = cols nc r in
-          { fr_name = str name; fr_rows = z rows; fr_cols = cs } :: frames (k - 1) r'
+          let (more, r'') = frames (k - 1) r' in
+          ({ fr_name = str name; fr_rows = z rows; fr_cols = cs } :: more, r'')
         | _ -> failwith "bad frame" in
-    let fs = frames (oint_of_string nfr) rest in
+    let (fs, rest') = frames (oint_of_string nfr) rest in
+    let ffs = (match rest' with n :: r -> fst (frames (oint_of_string n) r) | [] -> []) in
     let rk = nat_of_int (oint_of_string rank) and ln = nat_of_int (oint_of_string len) in
-    state := Some (dinit t rk ln fs, sinit t rk ln fs);
+    state := Some (dinit t rk ln fs ffs, sinit t rk ln fs ffs);
     "OK -"
   | ["reopen"; m] -> run (Reopen (m = "ro"))
   | ["observe"] -> run Observe
+  | ["drop_b2"] -> run DropForeignBlock
+  | ["recreate"; k] -> run (RecreateFrame (nat_of_int (oint_of_string k)))
   | "append_set" :: r -> run (AppendSet (counted r))
   | "append_range" :: l :: u :: ticks -> run (AppendRange (dbls ticks, str l, str u))
   | ["append_sampled"; x; l; u; off] -> run (AppendSampled (dec_dbl x, str l, str u, dec_dbl off))
